@@ -309,8 +309,7 @@ theorem step_emit_term (w : TW) (j : Nat) (n : Notif) (hn : n.isTerm = true)
     (hsrc : w.src = .hot j) (h : w.terminated.contains j = false)
     (hsub : w.srcSubscribed = true) (hal : w.srcAlive = true) :
     w.step (.emit j n) =
-      (let w2 := if fin w.stages then { w with terminated := j :: w.terminated }
-                 else { w with terminated := j :: w.terminated, srcAlive := false }.push 0 [n]
+      (let w2 := { w with terminated := j :: w.terminated, srcAlive := false }.push 0 [n]
        deliverNotifiers w2 j n w2.stages.length) := by
   have h' : j ∉ w.terminated := by simpa using h
   cases n with
